@@ -11,5 +11,7 @@ CONSTANTS
   AllowEnd = TRUE
   MaxRequery = 0
   FixCommitState = TRUE
+  SeqSMP = FALSE
+  FixSMPReset = FALSE
 INVARIANTS TypeOK QuietMeansEncrypted InOrderNoDup AllDelivered SlotsSuffice SlotBound NoSplice
 CHECK_DEADLOCK FALSE
